@@ -1,7 +1,7 @@
 """C03 implementation driver: runs the real hub wrapper classes (to_packet / from_packet /
 ProtocolHub.convert_packet) of whad-client on a batch of cases, in ONE process.
 
-stdin : {"cases": [case, ...]}
+stdin : {"cases": [case, ...], "codec": [[layer key, hex], ...], "warmup": [K, ...], "order": [case indices]}
   case = {"op": "m2p2m", "cls": K, "fields": {name: value}}         message -> packet -> message
        | {"op": "p2m2p", "cls": K, "pkt": PKT, "kw": {..}}          packet -> message -> packet
        | {"op": "convert", "pkt": PKT, "ver": 1|2}                   hub.convert_packet(pkt).to_packet()
@@ -241,7 +241,19 @@ def do_codec(q):
 
 def main():
     req = json.load(sys.stdin)
-    res = [do_case(c) for c in req.get("cases", [])]
+    # "warmup": class keys instantiated (empty message) in this order before any case, so that the
+    # order in which the wrapper classes are first used in the process is chosen by the harness;
+    # "order": permutation in which the cases are run (results are returned in request order)
+    for k in req.get("warmup", []):
+        try:
+            wrapper(k)()
+        except Exception:  # noqa
+            pass
+    cases = req.get("cases", [])
+    order = req.get("order") or list(range(len(cases)))
+    res = [None] * len(cases)
+    for i in order:
+        res[i] = do_case(cases[i])
     cod = [do_codec(q) for q in req.get("codec", [])]
     sys.stdout = _real_stdout
     print("RESULT " + json.dumps({"res": res, "codec": cod}))
